@@ -404,3 +404,90 @@ pub fn run_unit(tier: Tier, u: u64, ctx: &mut Ctx, check: CheckFn) {
     }
     rec(ctx, door, &mut lit, b.noise_len, &alpha, &fillers, check);
 }
+
+
+/// Reduced-bound enumeration for slow executors (Miri): 37 stackings (the 30 of the cross sweep, SLL and ether-type
+/// doors, the longest chains, maximal variable parts) x {no deviation, every single deviation} x cuts at every layer
+/// boundary -1 / 0 / +1, inside the innermost layer every 4th byte, and the complete packet (+ 1 trailing byte).
+/// De-duplicated locally; `announce` prints one line per case so that an abort can be attributed.
+pub fn run_reduced(ctx: &mut Ctx, announce: bool, stride: usize, shard: (u64, u64), check: CheckFn) -> u64 {
+    use std::collections::HashSet;
+    let pl = || L::opaque(6);
+    let mut stacks = cross_stacks();
+    stacks.push((Door::Sll, vec![L::new(Kind::Sll), L::vlan(0x88A8), L::new(Kind::Ipv4), L::new(Kind::Udp), pl()]));
+    stacks.push((Door::Sll, vec![L::new(Kind::Sll), L::new(Kind::Arp)]));
+    stacks.push((Door::Ether(0), vec![L::macsec(MACSEC_SCI), L::vlan(0x8100), L::new(Kind::Ipv6), L::new(Kind::Udp), pl()]));
+    stacks.push((Door::Eth2, vec![L::new(Kind::Eth2), L::macsec(MACSEC_C), pl()]));
+    stacks.push((Door::Eth2, vec![L::new(Kind::Eth2), L::new(Kind::Ipv6), L::new(Kind::Hbh), L::new(Kind::Dest), L::new(Kind::Routing), L::new(Kind::Dest), L::new(Kind::Frag), L::new(Kind::Ah), L::new(Kind::Tcp).with(|x| x.var = 40), pl()]));
+    stacks.push((Door::Ip, vec![L::new(Kind::Ipv4).with(|x| x.var = 40), L::new(Kind::Ah).with(|x| x.var = 8), L::new(Kind::Tcp).with(|x| x.var = 12), pl()]));
+    stacks.push((Door::Ip, vec![L::new(Kind::Ipv6), L::new(Kind::Icmpv6).with(|x| x.aux = 1), pl()]));
+    let mut seen: HashSet<u64> = HashSet::new();
+    let mut n = 0u64;
+    let mut pk = 0usize;
+    for (door, stack) in &stacks {
+        let mut variants: Vec<Vec<L>> = vec![stack.clone()];
+        with_devs(stack, 0, 1, 0, &mut |s: &[L], _| variants.push(s.to_vec()));
+        for v in variants {
+            pk += 1;
+            if stride > 1 && pk % stride != 0 && !v.iter().all(|l| l.dev.is_empty()) {
+                continue;
+            }
+            for trailer in [0usize, 1] {
+                let door = match door {
+                    Door::Ether(0) => Door::Ether(0x88E5),
+                    d => *d,
+                };
+                let pkt = serialise(door, &v, trailer);
+                // boundary cuts
+                let mut cuts: Vec<usize> = vec![pkt.bytes.len()];
+                for b in pkt.bounds.iter().chain(std::iter::once(&pkt.body_len)) {
+                    for c in [b.saturating_sub(1), *b, b + 1] {
+                        if c <= pkt.bytes.len() {
+                            cuts.push(c);
+                        }
+                    }
+                }
+                let last = *pkt.bounds.last().unwrap_or(&0);
+                let mut c = last;
+                while c < pkt.body_len {
+                    cuts.push(c);
+                    c += 4;
+                }
+                cuts.sort();
+                cuts.dedup();
+                for (i, start) in pkt.bounds.iter().enumerate() {
+                    let d = pkt.doors[i];
+                    if let Door::Ether(0) = d {
+                        continue;
+                    }
+                    if i > 0 && v[i].kind == Kind::Opaque {
+                        continue;
+                    }
+                    for cut in &cuts {
+                        if cut < start {
+                            continue;
+                        }
+                        let bytes = &pkt.bytes[*start..*cut];
+                        if !seen.insert(case_key(d, bytes)) {
+                            continue;
+                        }
+                        n += 1;
+                        if n % shard.1 != shard.0 {
+                            continue;
+                        }
+                        if announce {
+                            println!("MIRI-CASE {} door={} bytes={} ({} layer {})", n, d.name(), hex(bytes), pkt.shape, i);
+                        }
+                        let shape = &pkt.shape;
+                        ctx.case(
+                            None,
+                            || CaseDesc { shape: shape.clone(), text: format!("door={} bytes={}", d.name(), hex(bytes)), rank: bytes.len() as u64 },
+                            |case| check(d, bytes, shape, case),
+                        );
+                    }
+                }
+            }
+        }
+    }
+    n
+}
